@@ -35,6 +35,9 @@ var (
 	maxPaths   = flag.Int("maxpaths", 0, "stop a harness after this many paths (0 = no limit)")
 	budgetS    = flag.Int("budget", 0, "wall-clock budget per harness in seconds (0 = none)")
 	verbose    = flag.Bool("v", false, "verbose")
+	oneShot    = flag.Bool("oneshot", false, "solve every query from a clean solver state with constraint slicing instead of push/pop")
+	noGuide    = flag.Bool("noguide", false, "disable model-guided branching (always query both sides)")
+	progress   = flag.Bool("progress", false, "print progress every 10s")
 	noLambda   = flag.Bool("nolambda", false, "avoid array lambdas where a bounded unrolling exists")
 	mapOrder   = flag.String("maporder", "insertion", "map iteration order: insertion|reverse")
 	replayJSON = flag.String("concrete", "", "re-run one harness concretely with the inputs of this failure JSON")
@@ -65,6 +68,7 @@ type HarnessResult struct {
 	SolverS     float64           `json:"solver_s"`
 	WallS       float64           `json:"wall_s"`
 	EndReached  int               `json:"end_reached"`
+	Rescues     int               `json:"second_solver_rescues"`
 	Fns         map[string]int    `json:"functions"`
 	Models      map[string]int    `json:"models"`
 	Samples     [][]sym.InputValue `json:"samples"`
@@ -94,8 +98,8 @@ func main() {
 		writeOut(res)
 		return
 	}
-	cfg := sym.Config{Unwind: 64, MaxDecisions: 4000, MaxSteps: 20_000_000, TimeoutMs: 10000, Workers: *workers,
-		Solver: *solver, NoLambda: *noLambda, MapOrder: *mapOrder}
+	cfg := sym.Config{FastTimeoutMs: 1500, Unwind: 64, MaxDecisions: 4000, MaxSteps: 20_000_000, TimeoutMs: 10000, Workers: *workers,
+		Solver: *solver, NoLambda: *noLambda, MapOrder: *mapOrder, Progress: *verbose || *progress, OneShot: *oneShot, NoModelGuide: *noGuide}
 	if *tier == "thorough" {
 		cfg.Unwind, cfg.TimeoutMs, cfg.MaxDecisions = 256, 60000, 20000
 		cfg.Tier = 1
@@ -185,9 +189,10 @@ func summarize(e *sym.Engine, name, pkg string, wall float64) HarnessResult {
 		hr.SolverErrs += s.Errors
 		hr.SolverS += s.Seconds
 	}
-	if e.Unknowns > 0 || hr.QUnknown > 0 {
-		hr.Inconclusive = append(hr.Inconclusive, fmt.Sprintf("solver-unknown x%d", e.Unknowns+hr.QUnknown))
+	if e.Unknowns > 0 {
+		hr.Inconclusive = append(hr.Inconclusive, fmt.Sprintf("solver-unknown x%d", e.Unknowns))
 	}
+	hr.Rescues = e.Rescues
 	for k, n := range e.Unwinds {
 		hr.Inconclusive = append(hr.Inconclusive, fmt.Sprintf("unwind %s x%d", k, n))
 	}
@@ -225,6 +230,9 @@ func report(hr HarnessResult) {
 			continue
 		}
 		fmt.Printf("  FAILURE harness=%s kind=%s msg=%q site=%s inputs=%s\n", hr.Name, f.Kind, f.Msg, f.Site, shortInputs(f.Inputs))
+		for _, o := range f.Observed {
+			fmt.Printf("      observed %s=%s\n", o.Name, o.Val)
+		}
 		if *verbose {
 			for _, s := range f.Stack {
 				fmt.Printf("      at %s\n", s)
